@@ -18,6 +18,9 @@ ASSUMPTIONS = {"C14": [
     "map iteration order of RackAffinityGroupBalancer is explored by calling it several times per input (8 in small scope), "
     "not by enumerating every iteration order",
     "the rack bound is checked for named racks; members and leaders with the empty rack are counted separately (rackNoRack), not judged",
+    "leader path: partitions are numbered from 0; a subscribed topic may be missing from the cluster (error 3 in the metadata answer); the fake coordinator elects the "
+    "scripted leader and lists the members in the scripted order (a real coordinator elects and lists as it likes); partitions are "
+    "listed in ascending id order per topic",
     "the Go driver serialises the returned map faithfully (entries sorted by member and topic); a panic in AssignGroups is a line with panic text",
 ]}
 
@@ -155,9 +158,46 @@ def random_large(tier, rng):
         yield {"balancer": bal, "members": members, "partitions": parts, "scope": "large"}
 
 
+def leader_path(tier, rng):
+    """Leader path: real ConsumerGroups with their own subscriptions form a group against a fake cluster; every member in turn
+    is the elected leader.  Topics {t,u,v} with 1..4 partitions numbered from 0 (what a broker has), racks on the brokers."""
+    subs3 = [["t"], ["u"], ["t", "u"], ["u", "v"], ["t", "u", "v"], ["v"]]
+    n = 0
+    cases = []
+    for k in (1, 2, 3):
+        ids = IDS[:k] if k < 3 else ["a", "c", "d"]
+        for subs in itertools.product(subs3, repeat=k):
+            cases.append((ids, subs))
+    if tier == "quick":
+        # every heterogeneous pair, a seeded third of the triples
+        cases = [c for c in cases if len(c[0]) < 3] + rng.sample([c for c in cases if len(c[0]) == 3], 40)
+    for ids, subs in cases:
+        for li, leader in enumerate(ids):
+            if tier == "quick" and len(ids) == 3 and (n + li) % 3 != 0:
+                continue
+            n += 1
+            bal = ("range", "roundrobin", "rack")[n % 3]
+            racks = RACKS if bal == "rack" else [""]
+            counts = {"t": rng.randint(1, 4), "u": rng.randint(1, 4), "v": rng.randint(1, 3)}
+            used = {t for s in subs for t in s}
+            if rng.random() < 0.4:
+                # a topic that does not exist on the cluster; in half of these cases even when a member subscribes to it (the
+                # broker then answers UnknownTopicOrPartition for that topic and the others must still be assigned)
+                gone = rng.choice(["t", "u", "v"])
+                if gone not in used or (len(used) > 1 and rng.random() < 0.5):
+                    del counts[gone]
+            order = list(ids) if n % 2 else list(ids)[::-1]
+            sd = dict(zip(ids, subs))
+            members = [{"id": m, "topics": sd[m], "rack": rng.choice(racks)} for m in order]
+            pr = {t: [rng.choice(racks) for _ in range(c)] for t, c in counts.items()}
+            yield {"balancer": bal, "members": members, "partitions": plist(counts, "ordered", rng, racks=pr),
+                   "leader": leader, "scope": "leader"}
+
+
 def gen_inputs(tier, seed):
     rng = random.Random(seed * 104729 + 14)
     ins = list(small_range_rr(tier, rng)) + list(small_rack(tier, rng)) + list(random_large(tier, rng))
+    ins += list(leader_path(tier, random.Random(seed * 7907 + 5)))
     for n, x in enumerate(ins, 1):
         x["n"] = n
     return ins
@@ -167,7 +207,8 @@ def gen_inputs(tier, seed):
 def key_of(clause, line):
     mem = ",".join("%s:%s:%s" % (m["id"], "+".join(m["topics"]), m["rack"]) for m in line["in"]["members"])
     par = ",".join("%s/%d@%s" % (p["topic"], p["id"], p["rack"]) for p in line["in"]["parts"])
-    return "%s bal=%s members=[%s] parts=[%s]" % (clause, line["bal"], mem, par)
+    via = (" path=leader leader=%s" % line.get("leader")) if line.get("path") == "leader" else ""
+    return "%s bal=%s%s members=[%s] parts=[%s]" % (clause, line["bal"], via, mem, par)
 
 
 def judge_shard(ctx, sid, lines, state):
@@ -275,6 +316,9 @@ def run(ctx):
         raise Inconclusive("driver handled %s inputs / wrote %s lines for %d inputs, %d lines read" % (
             drv.get("inputs"), drv.get("lines"), len(inputs), len(lines)))
     ctx.log("driver: %d inputs, %d AssignGroups calls, %d distinct (input, output) lines" % (len(inputs), drv["calls"], len(lines)))
+    bad = [l for l in lines if l.get("path") == "leader" and l.get("err")]
+    if bad:
+        raise Inconclusive("leader path: %d group(s) did not form as scripted, e.g. input %d: %s" % (len(bad), bad[0]["n"], bad[0]["err"]))
 
     # shards of roughly equal cost (large lines are far more expensive for TLC than small ones)
     def cost(l):
@@ -373,6 +417,16 @@ def run(ctx):
         l = large[seed % len(large)]
         samples.append({"balancer": l["bal"], "scope": "large", "members": len(l["in"]["members"]), "partitions": len(l["in"]["parts"]),
                         "topics": sorted({p["topic"] for p in l["in"]["parts"]}), "output_head": l["out"][:2]})
+    lead = [l for l in lines if l.get("path") == "leader"]
+    lead_partial = [l for l in lead if any(set(m["topics"]) - set(next(x for x in l["in"]["members"] if x["id"] == l["leader"])["topics"])
+                                           for m in l["in"]["members"])]
+    if lead_partial:
+        l = lead_partial[seed % len(lead_partial)]
+        c = compact(l)
+        c.update({"path": "real ConsumerGroups, leader " + l["leader"], "topics_the_leader_asked_the_broker_for": l["asked"],
+                  "output_of_AssignGroups": None, "assignments_received_by_the_members": c["output_of_AssignGroups"]})
+        del c["output_of_AssignGroups"]
+        samples.append(c)
     if not samples:
         samples.append(compact(lines[0]))
     cov = {
@@ -383,6 +437,8 @@ def run(ctx):
         "inputs": len(inputs), "inputs_per_balancer": per_bal, "inputs_per_scope": per_scope,
         "assigngroups_calls": drv["calls"], "rack_repetitions_per_input": reps,
         "lines_judged": len(lines) - unjudged, "lines_per_balancer": lines_per_bal,
+        "leader_path_groups_formed": len(lead), "leader_path_groups_whose_leader_lacks_a_topic_of_another_member": len(lead_partial),
+        "leader_path_members": sum(len(l["in"]["members"]) for l in lead),
         "rack_inputs_with_several_distinct_outputs": multi,
         "panics": sum(1 for l in lines if l["panic"]),
         "largest_input": {"members": max(len(l["in"]["members"]) for l in lines), "partitions": max(len(l["in"]["parts"]) for l in lines)},
